@@ -8,6 +8,8 @@ pub mod c05;
 pub mod c06;
 pub mod c07;
 pub mod c08;
+pub mod c09;
+pub mod c10;
 pub mod c11;
 pub mod c12;
 pub mod c18;
@@ -43,6 +45,8 @@ pub fn registry() -> Vec<PropDef> {
         def("C06", 6, c06::case, Some(c06::golden), true),
         def("C07", 7, c07::case, None, true),
         def("C08", 8, c08::case, None, true),
+        def("C09", 9, c09::case, None, true),
+        def("C10", 10, c10::case, None, true),
         def("C11", 11, c11::case, None, true),
         def("C12", 12, c12::case, Some(c12::advertised), true),
         def("C18", 18, c18::case, None, true),
